@@ -106,6 +106,13 @@ def c09_nontrivial(op, impl):
 
 def run_c09(ctx):
     run_stream(ctx, "text", ["c09"], policy="okerr", oracle=c09_oracle, nontrivial=c09_nontrivial)
+    # tokens parsed with a footer *type* (non-injective decoder): the accepted string still re-serialises to itself
+    import checklib
+    rc, out, _ = checklib.sh([checklib.PM, "gen", "c01", "quick"], env={"VERIF_SEED": str(ctx.seed)}, timeout=600)
+    fl = [l for l in out.splitlines() if l.startswith("o.fcanon ")]
+    if fl:
+        run_stream(ctx, "typed-footers", [], policy="okerr", oracle=open_oracle("C09"), ops="\n".join(fl) + "\n",
+                   nontrivial=lambda o, i: tuple(o.split(" ")[1:3]) + (i[:20],))
     ctx.cov["exhaustive"] = True
     ctx.cov["exhaustive_part"] = ("every ASCII byte value at each of the 4 block positions for every tail length (with and without a preceding block), "
                                   "every pair of alphabet characters as 2- and 3-character tails, all strings of length <= 3 (v4; <= 2 other back ends) over the 14-symbol class alphabet after the header of every form")
@@ -311,7 +318,25 @@ def run_c12(ctx):
     # every corruption class of C02 on the real back ends with a recording decoder and validator:
     # invocation counts must stay 0 and the error class must be an authentication/format class
     run_stream(ctx, "mutations", ["c02"], policy="class", oracle=open_oracle("C12"), nontrivial=tok_nontrivial)
-    ctx.cov["rule"] = ("(b) all C02 mutants on the six real back ends with recording Payload::decode / Validate (counts must be 0, error class auth); (a) scripted Version/Payload/Validate implementations drive the real SealedToken::unseal and UnsealedToken::seal through every combination of "
+    # accessor clause: compile probes - the footer / payload of a not-yet-verified token is reachable through `unverified_footer` only
+    import probes
+    cat = [e for e in probes.catalogue(False) if e[0] in ("sealedMethod", "sealedMethodPub", "fieldFooter", "fieldPayload", "unverifiedFooter")]
+    res, lib_ok, err = probes.run(cat)
+    if not lib_ok:
+        ctx.k_broken.append({"kind": "probe-support-crate", "detail": err})
+    else:
+        ops = [probes.op_line(op, a).replace("ty ", "o.ty ", 1) if not probes.op_line(op, a).startswith("o.") else probes.op_line(op, a) for op, a in cat]
+        impl_lines = ["ok %s" % ("accept" if res[i][0] else "reject") for i in range(len(cat))]
+        want = {ops[i]: (cat[i][0] == "unverifiedFooter") for i in range(len(cat))}
+        def acc_oracle(o, i):
+            acc = i.startswith("ok accept")
+            if acc and not want[o]:
+                return ("the footer / payload of a token that has not been verified is reachable without the accessor named `unverified`: this program compiles: " + o, "core/accessor/%s" % o.split(" ")[-1])
+            if want[o] and not acc:
+                return ("`unverified_footer()` is not available: " + o, "core/accessor/missing")
+            return None
+        run_stream(ctx, "accessors", [], policy="full", oracle=acc_oracle, ops="\n".join(ops) + "\n", impl_lines=impl_lines, nontrivial=lambda o, i: tuple(o.split(" ")[1:]))
+    ctx.cov["rule"] = ("(c) accessor clause: compile probes over accessor names and fields of SealedToken + the scanned API surface theorem; (b) all C02 mutants on the six real back ends with recording Payload::decode / Validate (counts must be 0, error class auth); (a) scripted Version/Payload/Validate implementations drive the real SealedToken::unseal and UnsealedToken::seal through every combination of "
                        "unseal outcome x decode outcome x validator outcome (and nonce/encode/seal outcome); trace of invoked caller code compared with the model; distinct = (op, result, trace)")
 
 
@@ -444,6 +469,8 @@ def open_oracle(prop):
         elif t[0] == "o.fcanon":
             if impl.startswith("ok ") and "genuine=1" not in impl:
                 return ("a token with a footer of a custom footer type did not round-trip: " + impl[:80], "%s/%s/footer-roundtrip" % (be, t[2]))
+            if "alt_reser=0" in impl:
+                return ("a token string accepted with a custom footer type does not re-serialise to itself (the footer text is rewritten): " + impl[:90], "%s/%s/footer-text-rewritten" % (be, t[2]))
             if "altered_accepted=1" in impl or (impl.startswith("ok ") and "dec=0 val=0" not in impl):
                 return ("a token whose footer bytes were replaced by a different encoding of the same footer value was accepted / decoded "
                         "(the footer is authenticated as received, not as re-encoded): " + impl[:80], "%s/%s/footer-reencoded" % (be, t[2]))
@@ -827,6 +854,14 @@ def c16_oracle(op, impl):
     be = t[1]
     if impl == "panic":
         return ("panic in a randomised operation", "%s/rng/panic" % be)
+    if t[0] == "o.rngf":
+        if impl.startswith("ok "):
+            kv = dict(x.split("=", 1) for x in impl[3:].split(" ") if "=" in x)
+            if kv.get("produced") == "1" and int(kv.get("failed", "0")) > 0:
+                return ("%s produced an artefact although the random source reported failure at %s draw(s) it made (script %s)" % (t[1], kv["failed"], t[3][:40]), "%s/%s/fail-open" % (t[2], t[1]))
+            if kv.get("produced") == "0" and int(kv.get("failed", "0")) == 0 and "*" in t[3] and "!" not in t[3] and "~" not in t[3]:
+                return ("%s failed with a working random source: %s" % (t[1], impl[:80]), "%s/%s/failed" % (t[2], t[1]))
+        return None
     if t[0] == "o.fresh":
         if impl != "ok distinct=1 n=" + t[3]:
             return ("two of %s consecutive %s operations share a nonce/salt/ephemeral key/generated key: %s" % (t[3], t[2], impl), "%s/%s/repeated-randomness" % (be, t[2]))
@@ -847,7 +882,8 @@ def c16_oracle(op, impl):
 
 def run_c16(ctx):
     import checklib
-    nt = lambda o, i: (o.split(" ")[0], o.split(" ")[1], o.split(" ")[2].count(","), "!" in o.split(" ")[2], i[:6])
+    nt = lambda o, i: ((o.split(" ")[0], o.split(" ")[1], o.split(" ")[2], o.split(" ")[3][:24], i[:14]) if o.startswith("o.rngf") else
+                       (o.split(" ")[0], o.split(" ")[1], o.split(" ")[2].count(","), "!" in o.split(" ")[2], i[:6]))
     ok = checklib.build_harness(ctx, cfg_rng=True)
     if ok:
         run_stream(ctx, "scripted-rng", ["c16rng"], policy="okerr", oracle=c16_oracle, nontrivial=nt, pm=checklib.PM_RNG, timeout=240 if ctx.tier != "thorough" else 1800)
@@ -869,9 +905,13 @@ def c17_oracle(op, impl):
 
 
 def run_c17(ctx):
-    run_stream(ctx, "threads", ["c17"], policy="okerr", oracle=c17_oracle, nontrivial=lambda o, i: tuple(o.split(" ")[1:3]), heavy=True)
+    run_stream(ctx, "threads", ["c17"], policy="okerr", oracle=c17_oracle, nontrivial=lambda o, i: tuple(o.split(" ")[0:3]), heavy=True,
+               timeout=600 if ctx.tier != "thorough" else 3600)
     ctx.cov["rule"] = ("per back end: 2, 4, 8 and 16 threads share one local, one secret and one public key (Arc) and run mixed operations - encrypt/decrypt, sign/verify (also through clones), failing decrypt/verify, "
-                       "PIE wrap/unwrap, clone and drop, ids, wrong-password unwrap; every result checked against the sequential oracle (decrypts / verifies / equals), then deterministic fingerprints of the keys "
+                       "PIE wrap/unwrap, PKE seal/unseal, clone and drop, ids, wrong-password unwrap, key rotation (different keys parsed afresh, used, dropped), deterministic results vs sequential reference values; "
+                       "o.burst: brand-new key objects used for the first time by 8 threads released together by a barrier (lazy initialisation inside a key must not race); o.hist: a history of failures of every kind "
+                       "(bad tokens, wrong passwords, PBKW parameter blocks the KDF rejects, garbage sealed keys, bad key bytes) followed by the reference operations, under a time-out (a blocked later operation is reported as non-terminating); "
+                       "every result checked against the sequential oracle (decrypts / verifies / equals), then deterministic fingerprints of the keys "
                        "(injected-nonce token, raw bytes, ids) compared before / after the history and against a fresh re-parsed copy")
     ctx.cov["partial"] = "data races inside aws-lc / libsodium and the validity of `unsafe impl Send/Sync` cannot be exhibited by the Lean model; no ThreadSanitizer / helgrind run is made (the C libraries are not instrumented and helgrind does not understand Rust atomics)"
 
@@ -904,7 +944,8 @@ def run_c18(ctx):
             return k == "local" and v == pv and pk == "pkepublic"
         if op == "displayKey":
             return a[1] == "public"
-        if op in ("debugKey", "serializeKey", "displayUnsealed", "serializeUnsealed", "fieldFooter", "fieldPayload"):
+        if op in ("debugKey", "serializeKey", "displayUnsealed", "serializeUnsealed", "fieldFooter", "fieldPayload",
+                  "fieldKey", "ctorKey", "keyInto", "sealedMethod", "sealedMethodPub"):
             return False
         if op == "publicKey":
             return a[1] == "secret"
